@@ -29,24 +29,26 @@ Definition optrow_eqb (a b : optrow) : bool := list_eqb (opt_eqb Qceqb) a b.
    to optional_get, so compare through lookups *)
 Definition row_lookup (r : optrow) (i : nat) : option Qc :=
   match nth_error r i with Some o => o | None => None end.
-Definition row_equiv (c : nat) (a b : optrow) : bool :=
-  forallb (fun i => opt_eqb Qceqb (row_lookup a i) (row_lookup b i)) (seq 0 c).
-Fixpoint rows_equiv (cs : list nat) (a b : list optrow) : bool :=
+(* [tol] = 0 on the dyadic stream (exact); on the decimal stream the offsets x - x_trunk are
+   rounded by the implementation *)
+Definition row_equiv (tol : Qc) (c : nat) (a b : optrow) : bool :=
+  forallb (fun i => opt_eqb (cst_close tol) (row_lookup a i) (row_lookup b i)) (seq 0 c).
+Fixpoint rows_equiv (tol : Qc) (cs : list nat) (a b : list optrow) : bool :=
   match cs, a, b with
   | [], [], [] => true
-  | c :: cs', x :: a', y :: b' => row_equiv c x y && rows_equiv cs' a' b'
+  | c :: cs', x :: a', y :: b' => row_equiv tol c x y && rows_equiv tol cs' a' b'
   | _, _, _ => false
   end.
 
-Definition utils_eqb (a b : utils) : bool :=
+Definition utils_eqb (tol : Qc) (a b : utils) : bool :=
   let cs := map nrects (u_ml a) in
   list_eqb umod_eqb (u_ml a) (u_ml b) && list_eqb Qceqb (u_al a) (u_al b) &&
-  rows_equiv cs (u_xl a) (u_xl b) && rows_equiv cs (u_yl a) (u_yl b) &&
-  rows_equiv cs (u_wl a) (u_wl b) && rows_equiv cs (u_hl a) (u_hl b).
+  rows_equiv tol cs (u_xl a) (u_xl b) && rows_equiv tol cs (u_yl a) (u_yl b) &&
+  rows_equiv tol cs (u_wl a) (u_wl b) && rows_equiv tol cs (u_hl a) (u_hl b).
 
 (* the whole check of one case *)
 Definition c09_agree (nl : list module) (dw dh r tole toli : Qc) (iu : utils) (ieqs : list eqn) : bool :=
   match netlist_to_utils nl with
-  | Some u => utils_eqb u iu && eqns_close tole toli (build_eqs u dw dh r) ieqs
+  | Some u => utils_eqb tole u iu && eqns_close tole toli (build_eqs u dw dh r) ieqs
   | None => false
   end.
